@@ -56,12 +56,23 @@ Theorem C05_reject_yaml : forall d o t yv, gen d o = Built t ->
   decode_yaml t yv = None.
 Proof. exact reject_yaml_readings. Qed.
 
-(* integer readings reach Parse<T> unchanged for the 64-bit trait kinds (narrower trait types
-   are converted with Go's wrap-around, conv_int) *)
+(* integer readings always fit the 64-bit trait kinds; for narrower trait types the decoders check
+   that the conversion is lossless before calling Parse<T> (reading: conv_int … z = z) *)
 Theorem C05_no_narrowing_64 : forall b x,
   (In b [BUntypedInt; BInt; BInt64] -> - 2 ^ 63 <= x < 2 ^ 63 -> conv_int b x = x) /\
   (In b [BUint; BUint64] -> 0 <= x < 2 ^ 64 -> conv_int b x = x).
 Proof. exact conv_int_id_64. Qed.
+
+(* before fix C05-numeric-trait-range-check the integer fallbacks converted with Go's wrapping
+   conversion: for a parsable uint8 trait Code = 1/2 the number 257 (not a trait value) decoded to
+   the value whose Code is 1 — silently mapped.  The current decoders reject 257 and accept 1, 2;
+   and in C05_reject_* an integer reading now counts only when it fits the trait's type. *)
+Theorem C05_reject_narrow_norc_refuted :
+  exists t, gen nw_defn nw_opts = Built t
+            /\ decode_json_norc t (nw_json 257) = Some 0 /\ decode_yaml_norc t (nw_yaml 257) = Some 0
+            /\ decode_json t (nw_json 257) = None /\ decode_yaml t (nw_yaml 257) = None
+            /\ decode_json t (nw_json 1) = Some 0 /\ decode_yaml t (nw_yaml 2) = Some 1.
+Proof. exact decode_norc_refuted. Qed.
 
 (* non-vacuity of the hypotheses + the pinned code (before fix C05-yaml-numeric-fallback-guards,
    strconv guards `err != nil`): for P0/P1/P2 with parsable integer trait Code = 0/7/9 the YAML scalar
@@ -89,4 +100,5 @@ Print Assumptions C05_reject_json.
 Print Assumptions C05_reject_text.
 Print Assumptions C05_reject_yaml.
 Print Assumptions C05_no_narrowing_64.
+Print Assumptions C05_reject_narrow_norc_refuted.
 Print Assumptions C05_reject_yaml_orig_refuted.
